@@ -30,4 +30,4 @@ for id in "$@"; do
     *) echo "INCONCL $id rc=$rc $(basename $(dirname $patch))/$(basename $patch) :: $(echo "$out" | grep -m1 INCONCLUSIVE)";;
   esac
 done
-rm -rf "$dir" .bin/*alt* 2>/dev/null
+rm -rf "$dir"
